@@ -288,34 +288,32 @@ def flat_case(tdir, ncx, n, D, cs):
     got = sc.decompress_to_scratch()
     if not _same_path(got, b) or b.read_bytes() != D.tobytes():
         obs["problems"].append(("flat", "meta-less decompress_to_scratch() did not recreate flat.bin"))
-    try:
-        got = sc.decompress_to_scratch(scratch_dir=d / "scr")
-        if Path(got).read_bytes() != D.tobytes():
-            obs["problems"].append(("flat", "meta-less decompress_to_scratch(dir) is not the original binary"))
-    except TypeError as e:
-        obs["problems"].append(("nometa_scratch", "decompress_to_scratch(scratch_dir) of a reader without meta file raised %r" % (e,)))
-    # the caller announces fewer samples than the file holds: the .bin opens with the announced count
-    # (Reader.open: mismatch with meta None); the .cbin must behave the same
-    if n >= 2:
-        kw2 = dict(kw, ns=n - 1)
-        try:
-            sb = spikeglx.Reader(b, **kw2)
-            shape_b = tuple(sb.shape)
-            sb.close()
-        except Exception as e:
-            shape_b = type(e).__name__
-        try:
-            sc2 = spikeglx.Reader(out, **kw2)
-            shape_c = tuple(sc2.shape)
-            sc2.close()
-        except Exception as e:
-            shape_c = type(e).__name__
-        obs["short"] = [str(shape_b), str(shape_c)]
-        if shape_b != (n - 1, ncx):
-            obs["problems"].append(("flat", "Reader(bin, ns=n-1) without meta gives %s" % (shape_b,)))
-        if shape_c != shape_b:
-            obs["problems"].append(("nometa_cbin_ns", "without meta file and with ns=n-1 given, Reader(.bin) gives %s but "
-                                    "Reader(.cbin) gives %s" % (shape_b, shape_c)))
+    got = sc.decompress_to_scratch(scratch_dir=d / "scr")
+    if Path(got).read_bytes() != D.tobytes() or not _same_path(got, d / "scr" / "flat.bin"):
+        obs["problems"].append(("flat", "meta-less decompress_to_scratch(dir) is not the original binary"))
+    if sorted(q.name for q in (d / "scr").iterdir()) != ["flat.bin"]:
+        obs["problems"].append(("flat", "meta-less decompress_to_scratch(dir) left %s in the scratch folder" % sorted(
+            q.name for q in (d / "scr").iterdir())))
+    # the caller announces another sample count than the file holds: no meta data to correct, both file types
+    # open and expose the announced count (within the data); beyond the data the memmap refuses, the .cbin opens
+    obs["announced"] = []
+    for ns_a in sorted({n - 1, 1, n + 1} - {0}):
+        kw2 = dict(kw, ns=ns_a)
+        res = []
+        for f in (b, out):
+            try:
+                r2 = spikeglx.Reader(f, **kw2)
+                res.append((1, int(r2.ns), tuple(r2.shape), np.array(r2[0:min(ns_a, n), :])))
+                r2.close()
+            except ValueError:
+                res.append((0, 0, None, None))
+        obs["announced"].append((ns_a, [res[0][:2], res[1][:2]]))
+        if ns_a <= n:
+            if res[0][2] != (ns_a, ncx) or res[1][2] != (ns_a, ncx):
+                obs["problems"].append(("flat", "without meta file and ns=%d announced (data: %d), Reader(.bin) exposes %s and "
+                                        "Reader(.cbin) %s" % (ns_a, n, res[0][2], res[1][2])))
+            elif not np.array_equal(res[0][3], res[1][3]) or not np.array_equal(res[0][3], ref[0:ns_a]):
+                obs["problems"].append(("flat", "without meta file and ns=%d announced, values differ between .bin and .cbin" % ns_a))
     for r in (sr, sc):
         r.close()
     return obs
@@ -1601,6 +1599,11 @@ def _exercise(ctx, root):
             inputs.append([4, obs["size"]])
             outputs.append(obs["guess"])
             descr.append(desc)
+            for ns_a, (rb_, rc_) in obs["announced"]:
+                for fcode, r_ in ((1, rb_), (2, rc_)):
+                    inputs.append([5, n, ncx, ns_a, fcode])
+                    outputs.append(list(r_))
+                    descr.append(dict(desc, announced_ns=ns_a, file=[".bin", ".cbin"][fcode - 1]))
             dist["flat"] = dist.get("flat", 0) + 1
             nontrivial.add(("flat", ncx, n))
         for i, variant in enumerate(["int32", "uint16", "float32", "opt_spatial", "opt_notime", "opt_corder", "opt_level9",
